@@ -163,7 +163,13 @@ def run_case(case):
         bool(gz[:, a:b_].any()) for a, b_ in ((0, 3), (3, 9), (9, 15), (15, 51)) if a < gz.shape[1])
     r.nontrivial = bool(gz.any()) and ngroups >= 2
     g = torch.tensor(gz)
-    ok, G = lib(torch.autograd.grad, _loss(Z, g, case['permuted_cotangent']), xt, retain_graph=True)
+    if case['permuted_cotangent']:
+        ok, G = lib(torch.autograd.grad, _loss(Z, g, True), xt, retain_graph=True)
+    else:
+        # the cotangent handed over as a tensor of the caller: it must come back untouched
+        ok, G = lib(torch.autograd.grad, Z, xt, g, retain_graph=True)
+        if ok and not torch.equal(g, torch.tensor(gz)):
+            return r.fail('cotangent_mutated', 'the backward pass modified the cotangent tensor it was given')
     if not ok:
         return r.fail('backward_raise:' + G.bucket, 'backward raised: %s' % G)
     # a second cotangent through the same recorded graph (Jacobian rows, several losses): the map g -> grad is linear
